@@ -517,6 +517,27 @@ Theorem C14_partial_on_template : forall fo F l dc T,
     node_get T (Z.of_nat j) (S "weight") = Some xw /\
     forall k v, In (k, v) kws -> k <> S "w" -> ~ In k coarse_written -> node_get T (Z.of_nat j) k = Some (VStr v).
 Proof. exact coarse_chain_partial. Qed.
+(** ... and so does every copy of the node in the graph a coarse resolve() returns *)
+Theorem C14_partial_on_returned_coarse_graph : forall fo F l dc T,
+  FragText.wf (ctoks l) dc = true -> excluded (ctoks l) dc = false ->
+  lins_ok fo (clins l) = true ->
+  Forall (fun xo => ~ In ";"%char (fst (fst xo))) l ->
+  read_coarse_fragment fo F (FragText.render (decorate (ctoks l) dc)) = Ok T ->
+  forall C, wf_cut C -> forall fd, templates_ok C fd -> wf_dict fd -> fd_get F fd = Some T ->
+  forall B, is_base C B -> forall prev car fo_,
+  meta_of prev = B -> resolve_step_full true false fd prev car = Ok fo_ ->
+  exists m, sort_mapping (fo_m3 fo_) = Ok m /\
+    forall j x o name kws xw, nth_error l j = Some (x, o) -> cn_text x = DialectDefs.render [name] kws ->
+      clean name = true -> name <> [] ->
+      Forall (fun kv => clean_entry kv = true) kws -> NoDup (keys kws) ->
+      (forall k, In k (keys kws) -> ~ In k outside_names) ->
+      w_value fo kws = Some xw ->
+      forall p xs y, nth_error (c_parts C) p = Some (F, xs) -> nth_error xs j = Some y ->
+        node_get (fo_mol fo_) (map_get m (phi C y)) (S "charge") = Some (VFlt (S "0.0")) /\
+        node_get (fo_mol fo_) (map_get m (phi C y)) (S "weight") = Some xw /\
+        forall k v, In (k, v) kws -> k <> S "w" -> ~ In k coarse_written -> carried_key k ->
+          node_get (fo_mol fo_) (map_get m (phi C y)) k = Some (VStr v).
+Proof. exact coarse_chain_partial_returned. Qed.
 Example C14_coarse_chain_nonvacuous :
   FragText.render (decorate (ctoks exch) exch_dc) = S "[$][#X;w=2;k=v]=[#Y][$]" /\
   FragText.wf (ctoks exch) exch_dc = true /\ excluded (ctoks exch) exch_dc = false /\ lins_ok exc_fo (clins exch) = true /\
@@ -559,6 +580,7 @@ Print Assumptions C14_coarse_text_nonvacuous.
 Print Assumptions C14_base_annotation_flat_nobrace.
 Print Assumptions C14_coarse_chain_template_node.
 Print Assumptions C14_partial_on_template.
+Print Assumptions C14_partial_on_returned_coarse_graph.
 Print Assumptions C14_coarse_chain_nonvacuous.
 Print Assumptions C14_text_annotation_reaches_returned_graph.
 Print Assumptions C14_text_annotation_not_gained.
